@@ -306,7 +306,10 @@ func TestC10SyncReplies(t *testing.T) {
 			try(resign(raw, k), nil, "resigned-by-other-key", "server-signature")
 		}
 		// timestamp shifts, re-signed with the server's real key
-		for _, d := range []int64{-24*3600 - 3600, -24*3600 - 20, -24*3600 + 20, -3600, 3600, 24*3600 - 20, 24*3600 + 20, 24*3600 + 3600, rapid.Int64Range(-200000, 200000).Draw(t, "shift")} {
+		// ... and shifts so large that a difference scaled to nanoseconds, or taken
+		// in fewer bits, wraps around (timestamps are 64-bit seconds on the wire)
+		far := []int64{1 << 31, 1 << 32, -(1 << 32), 1 << 55, -(1 << 55), 1<<55 + 3600, 1 << 62, math.MinInt64, 1 << (32 + rapid.IntRange(0, 30).Draw(t, "farBit")), -(1 << (32 + rapid.IntRange(0, 30).Draw(t, "farBitNeg")))}
+		for _, d := range append([]int64{-24*3600 - 3600, -24*3600 - 20, -24*3600 + 20, -3600, 3600, 24*3600 - 20, 24*3600 + 20, 24*3600 + 3600, rapid.Int64Range(-200000, 200000).Draw(t, "shift")}, far...) {
 			b := append([]byte(nil), raw...)
 			binary.LittleEndian.PutUint64(b[n-72:], uint64(time.Now().Unix()+d))
 			try(resign(b, w.srvKey), nil, "timestamp-shift-resigned", fmt.Sprintf("shift-%dh", d/3600))
